@@ -148,3 +148,13 @@ CASES += [
          old="      auto  copy( *this);\n      reverse();\n      return copy;",
          new="      DynamicBitsetReverseIterator  before = *this;\n      reverse();\n      return before;"),
 ]
+
+BH = 'src/celma/container/dynamic_bitset.hpp'
+CASES += [
+    dict(id='c12-ctor-from-bitset-sets-only', prop='C12', file=BH, expect='R5',
+         old="   mData( N, false)\n{\n   for (size_t idx = 0; idx < N; ++idx)\n   {\n      mData[ idx] = other[ idx];",
+         new="   mData( N, false)\n{\n   for (size_t idx = 0; idx < N; ++idx)\n   {\n      if (other[ idx])\n         mData[ idx] = true;\n      else if (idx == N)\n         mData[ idx] = other[ idx];"),
+    dict(id='c12-eq-assign-from-bitset-test-form', prop='C12', file=BH, expect=None,
+         old="   mData.resize( N);\n   for (size_t idx = 0; idx < N; ++idx)\n   {\n      mData[ idx] = other[ idx];",
+         new="   mData.resize( N);\n   for (size_t idx = 0; idx < N; ++idx)\n   {\n      mData[ idx] = other.test( idx);"),
+]
